@@ -21,6 +21,8 @@ import (
 
 type Boundary struct {
 	Kind string `json:"kind,omitempty"` // "" method selection | "sign" | "parity" | "integer": the last three need an anchor on EACH side
+	Role string `json:"role,omitempty"` // round 5: "select" (chooses between two formulae / outcomes) | "convergence" (stopping test, iteration limit)
+	Int  bool   `json:"int,omitempty"`  // round 5: comparison on an integer order / iteration parameter
 	File string `json:"file"`
 	Line int    `json:"line"`
 	Func string `json:"func"`
@@ -43,7 +45,24 @@ var boundaryFuncs = map[string][]string{
 }
 
 // functions whose parity tests (`& 1`, `% 2`) are listed in addition (round 3)
-var parityFuncs = map[string][]string{"polygamma.go": {"poly_cot_pi"}}
+var parityFuncs = map[string][]string{}
+
+// round 5: functions in which comparisons on INTEGER parameters (order n, derived counters) are listed too
+// (for-loop conditions excepted): the order-selected branches of polygamma / zeta / factorial
+var orderFuncs = map[string][]string{
+	"polygamma.go": {"polygamma_imp", "polygamma_atinfinityplus", "polygamma_attransitionplus", "polygamma_nearzero", "poly_cot_pi", "Polygamma"},
+	"zeta.go":      {"zeta_imp", "zeta_imp_prec", "zeta_imp_odd_integer"},
+	"factorial.go": {"Factorial"},
+}
+
+func roleOf(s string) string {
+	for _, w := range []string{"SeriesIterationsMax", "tolerance", "math.Abs(term", "delta", "len("} {
+		if strings.Contains(s, w) {
+			return "convergence"
+		}
+	}
+	return "select"
+}
 
 func isLit(e ast.Expr, v string) bool {
 	bl, ok := e.(*ast.BasicLit)
@@ -103,8 +122,15 @@ func isIntType(t ast.Expr) bool {
 func listBoundaries(repo string) []Boundary {
 	var out []Boundary
 	var files []string
+	seenFile := map[string]bool{}
 	for f := range boundaryFuncs {
 		files = append(files, f)
+		seenFile[f] = true
+	}
+	for f := range orderFuncs {
+		if !seenFile[f] {
+			files = append(files, f)
+		}
 	}
 	sort.Strings(files)
 	for _, fn := range files {
@@ -120,6 +146,10 @@ func listBoundaries(repo string) []Boundary {
 		ponly := map[string]bool{}
 		for _, n := range parityFuncs[fn] {
 			want[n], ponly[n] = true, true
+		}
+		ordf := map[string]bool{}
+		for _, n := range orderFuncs[fn] {
+			want[n], ordf[n] = true, true
 		}
 		for _, d := range af.Decls {
 			fd, ok := d.(*ast.FuncDecl)
@@ -181,10 +211,45 @@ func listBoundaries(repo string) []Boundary {
 					return true
 				})
 			}
+			// round 5: integer locals derived from integer parameters (index := n - 1, N := d4d + 4*n)
+			for changed := ordf[fd.Name.Name]; changed; {
+				changed = false
+				ast.Inspect(fd.Body, func(n ast.Node) bool {
+					as, ok := n.(*ast.AssignStmt)
+					if !ok {
+						return true
+					}
+					t := false
+					for _, r := range as.Rhs {
+						if mentions(r, ints) && !mentions(r, floats) {
+							t = true
+						}
+					}
+					if t {
+						for _, l := range as.Lhs {
+							if id, ok := l.(*ast.Ident); ok && !floats[id.Name] && !ints[id.Name] && id.Name != "_" {
+								ints[id.Name] = true
+								changed = true
+							}
+						}
+					}
+					return true
+				})
+			}
 			inCmp := map[ast.Node]bool{}
+			loopCond := map[ast.Node]bool{}
+			ast.Inspect(fd.Body, func(n ast.Node) bool {
+				if fs, ok := n.(*ast.ForStmt); ok && fs.Cond != nil && ordf[fd.Name.Name] {
+					loopCond[fs.Cond] = true
+				}
+				return true
+			})
 			ast.Inspect(fd.Body, func(n ast.Node) bool {
 				be, ok := n.(*ast.BinaryExpr)
 				if !ok {
+					return true
+				}
+				if loopCond[be] {
 					return true
 				}
 				switch be.Op {
@@ -209,10 +274,21 @@ func listBoundaries(repo string) []Boundary {
 					})
 					s := exprString(fset, be)
 					out = append(out, Boundary{Kind: "parity", File: fn, Line: fset.Position(be.Pos()).Line, Func: fd.Name.Name, Expr: s,
-						Key: fd.Name.Name + "|" + strings.ReplaceAll(s, " ", "")})
+						Key: fd.Name.Name + "|" + strings.ReplaceAll(s, " ", ""), Role: "select"})
 					return true
 				}
 				if ponly[fd.Name.Name] {
+					return true
+				}
+				if ordf[fd.Name.Name] {
+					// round 5: integer comparisons are listed as well
+					s := exprString(fset, be)
+					isInt := !mentions(be.X, floats) && !mentions(be.Y, floats)
+					if isInt && !mentions(be.X, ints) && !mentions(be.Y, ints) {
+						return true // constants only
+					}
+					out = append(out, Boundary{Kind: classify(be, s), File: fn, Line: fset.Position(be.Pos()).Line, Func: fd.Name.Name, Expr: s,
+						Key: fd.Name.Name + "|" + strings.ReplaceAll(s, " ", ""), Role: roleOf(s), Int: isInt})
 					return true
 				}
 				bare := func(e ast.Expr) bool {
@@ -227,7 +303,7 @@ func listBoundaries(repo string) []Boundary {
 					return true
 				}
 				out = append(out, Boundary{Kind: classify(be, s), File: fn, Line: fset.Position(be.Pos()).Line, Func: fd.Name.Name, Expr: s,
-					Key: fd.Name.Name + "|" + strings.ReplaceAll(s, " ", "")})
+					Key: fd.Name.Name + "|" + strings.ReplaceAll(s, " ", ""), Role: roleOf(s)})
 				return true
 			})
 		}
